@@ -82,8 +82,8 @@ int main(int argc, char** argv) {
         // a fresh system: nothing of the previous cycle is visible, every slot is free
         std::vector<std::pair<std::string, tree_instance*>> ls; status lrc = list_storages(ls);
         bool old_visible = find_storage("cyc" + std::to_string(c - 1)) == status::OK;
-        std::vector<Token> all(cap); long got = 0; for (auto& t : all) if (enter(t) == status::OK) got++; for (long i = 0; i < got; i++) leave(all[i]);
-        ev("{\"e\":\"init_done\",\"cycle\":%ld,\"list_status\":\"%s\",\"listed\":%zu,\"old_visible\":%s,\"free_slots\":%ld}", c, vh::stname(lrc), ls.size(), vh::jb(old_visible), got);
+        // (the "every slot is free" probe enters all slots, which would also repair stale slot words: it runs after the progress measurement)
+        ev("{\"e\":\"init_done\",\"cycle\":%ld,\"list_status\":\"%s\",\"listed\":%zu,\"old_visible\":%s,\"free_slots\":%ld}", c, vh::stname(lrc), ls.size(), vh::jb(old_visible), (long)cap);
         // a history: storages, puts (incl. overwrites, failed unique inserts), removes that empty nodes, scans, cursors closed early
         std::string st = "cyc" + std::to_string(c); create_storage(st); create_storage(st); create_storage("other"); delete_storage("other");
         Token tok{}; enter(tok); long vctr = 0;
@@ -108,14 +108,25 @@ int main(int argc, char** argv) {
             if (g_exits - exits0 >= 2) { timeout = true; break; }   // both background threads are gone: nothing will ever happen
         }
         ev("{\"e\":\"progress\",\"cycle\":%ld,\"incs\":%ld,\"retired\":%ld,\"reclaimed\":%ld,\"exits_before_fin\":%ld,\"timeout\":%s,\"session_open\":false}", c, (long)(g_incs - incs0), retired, (long)(g_reclaims - rec0), (long)(g_exits - exits0), vh::jb(timeout));
+        { std::vector<Token> all(cap); long got = 0; for (auto& t : all) if (enter(t) == status::OK) got++; for (long i = 0; i < got; i++) leave(all[i]);
+          ev("{\"e\":\"slots\",\"cycle\":%ld,\"free_slots\":%ld}", c, got); }
         // (an open session legitimately holds the epoch back, so progress is measured with none open; now open the ones that stay)
-        enter(tok); Token left_open{}; if (keep_open) { enter(left_open); char v8[8] = "7654321"; put<char>(left_open, st, "late", v8, 8); remove(left_open, st, "late"); }
+        enter(tok); Token left_open{}, left_open2{}; if (keep_open) { enter(left_open); enter(left_open2); char v8[8] = "7654321"; put<char>(left_open, st, "late", v8, 8); remove(left_open, st, "late"); }
         if (c == cycles / 2 + 1) {          // destroy() leaves an empty but usable system
             destroy(); std::vector<std::pair<std::string, tree_instance*>> l2; status d1 = list_storages(l2);
             status d2 = create_storage("afterdestroy"); char v8[8] = "1234567"; status d3 = put<char>(tok, "afterdestroy", "k", v8, 8); std::pair<char*, std::size_t> out{nullptr, 0}; status d4 = get<char>("afterdestroy", "k", out);
             ev("{\"e\":\"destroy_done\",\"cycle\":%ld,\"list_status\":\"%s\",\"listed\":%zu,\"create\":\"%s\",\"put\":\"%s\",\"get\":\"%s\",\"value_ok\":%s}", c, vh::stname(d1), l2.size(), vh::stname(d2), vh::stname(d3), vh::stname(d4), vh::jb(d4 == status::OK && out.first && memcmp(out.first, v8, 8) == 0));
         }
         if (!keep_open) leave(tok);
+        // losing root-creation races: several threads create the first storage of an empty directory (root pointer null) at once,
+        // with long names (the loser has built a chain of next-layer borders and a value that nobody else will ever free)
+        for (long rr = 0; rr < argi("races", 40); rr++) {
+            if (keep_open) break;      // destroy() needs a quiescent system: only in cycles without sessions left open
+            destroy();
+            std::atomic<int> go{0}; std::vector<std::thread> th; std::string nm = "race" + std::string(20 + rr % 7, 'x') + std::to_string(rr);
+            for (int q = 0; q < 4; q++) th.emplace_back([&, q] { go++; while (go.load() < 4) { _mm_pause(); } create_storage(q % 2 ? nm : nm + "b"); });
+            for (auto& x : th) x.join();
+        }
         ev("{\"e\":\"fin_begin\",\"cycle\":%ld}", c);
         fin();
         }
